@@ -358,6 +358,10 @@ pub struct BuiltSet {
     pub weights: std::vec::Vec<u128>,
     pub threshold: u128,
     pub nonce: [u8; 32],
+    /// an extra element of the signers vector that is not a signer at all, (kind, position): kind % 4 = 0 a struct
+    /// {signer: 32 zero bytes, weight: a 64-bit zero}, 1 void, 2 a 32-bit number, 3 a struct whose key has 31 bytes.
+    /// Typed vectors are decoded element by element, so such a value can be passed where a signer set is expected.
+    pub junk: Option<(u8, u8)>,
 }
 
 pub fn signing_key(seed: u16) -> SigningKey {
@@ -384,6 +388,7 @@ impl SetSpec {
             sks: pairs.into_iter().map(|p| p.0).collect(),
             threshold: self.threshold,
             nonce: [self.nonce; 32],
+            junk: None,
         }
     }
 }
@@ -398,7 +403,7 @@ impl BuiltSet {
     /// statement's well-formedness: non-empty, strictly increasing keys, non-zero weights,
     /// non-zero threshold not exceeding the overflow-free total
     pub fn well_formed(&self) -> bool {
-        if self.pks.is_empty() {
+        if self.pks.is_empty() || self.junk.is_some() {
             return false;
         }
         if self.pks.windows(2).any(|w| w[0] >= w[1]) {
@@ -417,6 +422,31 @@ impl BuiltSet {
         for (pk, w) in self.pks.iter().zip(self.weights.iter()) {
             v.push_back(WeightedSigner { signer: BytesN::from_array(env, pk), weight: *w });
         }
+        if let Some((kind, pos)) = self.junk {
+            use soroban_sdk::{IntoVal, Map, Symbol, TryFromVal, Val};
+            let mut raw: SVec<Val> = SVec::new(env);
+            for e in v.iter() {
+                raw.push_back(e.into_val(env));
+            }
+            let junk: Val = match kind % 4 {
+                0 => {
+                    let mut m: Map<Symbol, Val> = Map::new(env);
+                    m.set(Symbol::new(env, "signer"), BytesN::from_array(env, &[0u8; 32]).into_val(env));
+                    m.set(Symbol::new(env, "weight"), 0u64.into_val(env));
+                    m.into_val(env)
+                }
+                1 => ().into_val(env),
+                2 => 7u32.into_val(env),
+                _ => {
+                    let mut m: Map<Symbol, Val> = Map::new(env);
+                    m.set(Symbol::new(env, "signer"), soroban_sdk::Bytes::from_slice(env, &[9u8; 31]).into_val(env));
+                    m.set(Symbol::new(env, "weight"), 1u128.into_val(env));
+                    m.into_val(env)
+                }
+            };
+            raw.insert(pos as u32 % (raw.len() + 1), junk);
+            v = SVec::<WeightedSigner>::try_from_val(env, &raw.to_val()).unwrap();
+        }
         WeightedSigners { signers: v, threshold: self.threshold, nonce: BytesN::from_array(env, &self.nonce) }
     }
     pub fn sv(&self) -> Sv {
@@ -424,13 +454,25 @@ impl BuiltSet {
             ("nonce".into(), Sv::Bytes(self.nonce.to_vec())),
             (
                 "signers".into(),
-                Sv::Vec(
-                    self.pks
+                Sv::Vec({
+                    let mut items: Vec<Sv> = self
+                        .pks
                         .iter()
                         .zip(self.weights.iter())
                         .map(|(pk, w)| Sv::Map(vec![("signer".into(), Sv::Bytes(pk.to_vec())), ("weight".into(), Sv::U128(*w))]))
-                        .collect(),
-                ),
+                        .collect();
+                    if let Some((kind, pos)) = self.junk {
+                        let junk = match kind % 4 {
+                            0 => Sv::Map(vec![("signer".into(), Sv::Bytes(vec![0u8; 32])), ("weight".into(), Sv::U64(0))]),
+                            1 => Sv::Void,
+                            2 => Sv::U32(7),
+                            _ => Sv::Map(vec![("signer".into(), Sv::Bytes(vec![9u8; 31])), ("weight".into(), Sv::U128(1))]),
+                        };
+                        let at = pos as usize % (items.len() + 1);
+                        items.insert(at, junk);
+                    }
+                    items
+                }),
             ),
             ("threshold".into(), Sv::U128(self.threshold)),
         ])
